@@ -215,7 +215,25 @@ func ruleTimerDrain(c *RC) *RuleResult {
 						}
 					}
 				}
+				// time.NewTimer never returns nil: a path on which its result was found nil does not exist
+				infeasible := false
+				for _, l := range sn.TrailL {
+					if !l.Pos && l.A != nil && l.A.Op == "nn" && l.A.A != nil && strings.HasPrefix(l.A.A.S, "l:ext:time.NewTimer:") {
+						infeasible = true
+					}
+				}
+				if infeasible {
+					n--
+					r.Sites--
+					continue
+				}
 				zero := false
+				// a deadline that is not in the future (duration ≤ 0) may expire at once
+				if len(fn.Params) == 3 {
+					if v, ok := sn.F.value(mkAtom("lt", tZero, mkTerm(KParam, fn.Params[2].Name()))); ok && !v {
+						zero = true
+					}
+				}
 				if v, ok := sn.F.value(mkAtom("eq", fld(c.timerRoles().dur, false), tZero)); ok && v {
 					zero = true
 				}
@@ -231,7 +249,7 @@ func ruleTimerDrain(c *RC) *RuleResult {
 				case drained == "":
 					r.fail(fn.Name+"/send-without-drain", c.Prog.Pos(s.Node), "send on the capacity-1 channel without a preceding non-blocking drain (can block forever if an earlier expiry was left unread)")
 				case !zero:
-					r.fail(fn.Name+"/send-nonzero", c.Prog.Pos(s.Node), "immediate expiry sent although the duration is not known to be zero")
+					r.fail(fn.Name+"/send-nonzero", c.Prog.Pos(s.Node), "immediate expiry sent although the duration is not known to be zero or negative on path {"+sn.Trail+"}")
 				default:
 					r.ok(fn.Name + ": drain (" + drained + ") then send, only for a zero duration")
 				}
